@@ -1078,6 +1078,16 @@ ANIcreate(int32    file_id,  /* IN: file ID */
     if (HAatom_group(file_id) != FIDGROUP)
         HGOTO_ERROR(DFE_ARGS, FAIL);
 
+    /* an annotation cannot be created in a file opened for reading only */
+    {
+        filerec_t *frec = HAatom_object(file_id);
+
+        if (BADFREC(frec))
+            HGOTO_ERROR(DFE_ARGS, FAIL);
+        if (!(frec->access & DFACC_WRITE))
+            HGOTO_ERROR(DFE_DENIED, FAIL);
+    }
+
     /* deal with type */
     switch ((ann_type)type) {
         case AN_DATA_LABEL:
